@@ -1259,29 +1259,36 @@ func c14Part2b(c *vx.Check, depths []uint) {
 				cl := col(a, b)
 				step := fmt.Sprintf(" [column %d: %d -> %d]", cl, vals[a], 0)
 				var err error
-				if b == n {
+				clearing := b == n
+				if clearing {
 					step = fmt.Sprintf(" [column %d: %d -> cleared]", cl, vals[a])
-					pre2 := "history write,read,ImportValue-clear of one column,read: "
 					err = c14ClearValues(e, index, m, []uint64{cl})
-					if err == nil && c14CheckBattery(c, e, index, j.cf, m, light(), desc+step, pre2) > 0 {
-						return
-					}
 				} else {
 					step = fmt.Sprintf(" [column %d: %d -> %d]", cl, vals[a], vals[b])
 					err = c14WriteValues(e, index, m, []uint64{cl}, []int64{vals[b]}, j.how)
-					if err == nil && c14CheckBattery(c, e, index, j.cf, m, light(), desc+step, pre) > 0 {
-						return
-					}
 				}
 				if err != nil {
 					c.Violate("overwrite with an in-range value refused", desc+step, err.Error(), "<nil>")
 					return
 				}
+				// Field.Value reads the stored bits directly (no row cache): a wrong value here is a
+				// wrong write, not a stale read.
 				f := e.srv.holder.Field(index, "v")
 				v, ok, _ := f.Value(cl)
 				wv, wok := m.vals[cl]
 				if v != wv || ok != wok {
-					c.Violate(pre+"goapi Field.Value wrong", desc+step, fmt.Sprint(v, ok), fmt.Sprint(wv, wok))
+					what := names[j.how] + " overwrite of one column"
+					if clearing {
+						what = "ImportValue-clear of one column"
+					}
+					c.Violate("history write,"+what+": the column then holds a wrong value (Field.Value, read from storage)", desc+step, fmt.Sprint(v, ok), fmt.Sprint(wv, wok))
+					return
+				}
+				p2 := pre
+				if clearing {
+					p2 = "history write,read,ImportValue-clear of one column,read: "
+				}
+				if c14CheckBattery(c, e, index, j.cf, m, light(), desc+step, p2) > 0 {
 					return
 				}
 				steps++
